@@ -144,14 +144,6 @@ private theorem clause_healthyIff (v vb : Variant) (c : Cfg) (ideal : Bool) (g :
     · simp [clauseOk, outcomeOf, obsOf, step, hdue]
     · cases cio <;> (try by_cases hto : clf + c.breaker.timeout < now) <;> unfold_all <;> simp [classify_healthy_iff]
 
-macro "destruct_state" : tactic => `(tactic| (
-  rename_i h
-  obtain ⟨h1, h2, h3, h4, h5, h6, h7, h8⟩ := h
-  rename_i s
-  obtain ⟨⟨st, f, m, lc, nc⟩, ⟨cf, clf, cla, cio, now⟩, cbs, lr⟩ := s
-  simp only at h1 h2 h3 h4 h5 h6 h7 h8
-  subst h5))
-
 private theorem clause_classification (v vb : Variant) (c : Cfg) (ideal : Bool) (g : Ghost) (s : St) (op : Op) (h : CInv c g s) :
     clauseOk (paramsOf c ideal) .classification g op (obsOf (step v vb c s op)) = true := by
   obtain ⟨h1, h2, h3, h4, h5, h6, h7, h8⟩ := h
